@@ -306,6 +306,8 @@ class Mov3(ThumbInstruction):
     syntax = Syntax(["mov", " ", rd, ",", " ", imm])
 
     def encode(self):
+        if self.imm not in range(0, 256):
+            raise ValueError(f"Cannot encode {self.imm} in mov [0,255]")
         tokens = self.get_tokens()
         rd = self.rd.num
         tokens[0][8:11] = rd
@@ -792,6 +794,8 @@ class Bkpt(ThumbInstruction):
     syntax = Syntax(["bkpt", " ", imm])
 
     def encode(self):
+        if self.imm not in range(0, 256):
+            raise ValueError(f"Cannot encode {self.imm} in bkpt [0,255]")
         tokens = self.get_tokens()
         tokens[0][0:8] = self.imm
         tokens[0][8:16] = self.opcode
